@@ -190,6 +190,15 @@ fn gen_case(ctx: &Ctx, ch: &mut Choices) -> (String, &'static str, Dialect, Dial
         }
     };
     let mut src = src;
+    // file-level decorations: what may sit before the first token or after the last one
+    if ch.chance(1, 5) {
+        let pre = *ch.pick(&["\u{feff}", "\u{feff}\u{feff}", "\n", "\r\n", "\r", " ", "\t", "\u{c}", "#!/usr/bin/env starlark\n", "# é\n", "\u{feff}# c\n", "\\\n", "\u{a0}", "\u{2028}", "\u{0}", "\n\n  \n", ";", "\u{feff}\n"]);
+        src = format!("{pre}{src}");
+    }
+    if ch.chance(1, 8) {
+        let post = *ch.pick(&["\u{feff}", "\r", "\\", "\u{c}", "  ", "\t", "# no newline", "\u{0}", "\n\u{feff}", "\u{2029}", ";"]);
+        src.push_str(post);
+    }
     if src.len() > 65536 {
         let mut cut = 65536;
         while !src.is_char_boundary(cut) {
